@@ -17,7 +17,9 @@ Record dcase := DC {
   dc_ops : list dop;
   dc_obs_raw : list dobs;              (* after each op: links of all objects so far, outcome      *)
   dc_anc : list (list id);             (* node.ancestors of every object after the history         *)
-  dc_off_raw : list dobs               (* C20 only: the same history with BIGTREE_CONF_ASSERTIONS="" *)
+  dc_off_raw : list dobs;              (* C20 only: the same history with BIGTREE_CONF_ASSERTIONS="" *)
+  dc_bat_on : list (list nat);         (* C20 only: per object, a digest of what a battery of read-only   *)
+  dc_bat_off : list (list nat)         (* library calls returned on the final DAG, checks on / checks off *)
 }.
 
 Definition apply_delta (prev : dlinks) (n : nat) (delta : list (id * (list id * list id))) : dlinks :=
@@ -118,9 +120,19 @@ Fixpoint c20_same (on off : list (dlinks * nat)) : bool :=
   | _, _ => false
   end.
 
+(* the read-only battery (ancestors, descendants, siblings, is_root/is_leaf, attributes, go_to incl.
+   n.go_to(n), dag_iterator, dag_to_list/dict/dataframe, copy()) has to give the same results in the
+   two interpreters whenever the two final DAGs are the same *)
+Definition final_links (l : list (dlinks * nat)) : dlinks :=
+  match rev l with (x, _) :: _ => x | [] => [] end.
+Definition c20_battery (c : dcase) : bool :=
+  negb (dlinks_eqb (final_links (dc_obs c)) (final_links (dc_off c))
+        && Nat.eqb (length (dc_obs c)) (length (dc_off c)))
+  || list_eqb (list_eqb Nat.eqb) (dc_bat_on c) (dc_bat_off c).
+
 Definition check_C20_dag (c : dcase) : nat :=
   if unmodelled_dtrace (dcfg true) (dinit_of c) (dc_ops c)
      || unmodelled_dtrace (dcfg false) (dinit_of c) (dc_ops c) then F_SKIP else
   flag (negb (agree_dtrace (dcfg true) (dinit_of c) (dc_ops c) (dc_obs c)
               && agree_dtrace (dcfg false) (dinit_of c) (dc_ops c) (dc_off c))) F_DISAGREE
-  + flag (negb (c20_same (dc_obs c) (dc_off c))) F_PROPFAIL.
+  + flag (negb (c20_same (dc_obs c) (dc_off c) && c20_battery c)) F_PROPFAIL.
